@@ -559,7 +559,12 @@ def get_sort(node):
         return __get_sort_cache[node.id]
     if node in __get_sort_cache:
         return __get_sort_cache[node]
-    sort = _get_sort_aux(node)
+    try:
+        sort = _get_sort_aux(node)
+    except (AssertionError, AttributeError, IndexError, TypeError,
+            ValueError):
+        # the sort of an ill-formed term, e.g. (fp x y), can not be inferred
+        sort = None
     __get_sort_cache[node.id] = sort
     __get_sort_cache[node] = sort
     return sort
